@@ -29,6 +29,11 @@ fn sentinels() -> Snapshot {
     s.insert("envx", Node::dir());
     s.insert("envx/KEEP", Node::file(b"1"));
     s.insert("env.keep", Node::file(b"2"));
+    // directories whose names merely start like the env directories
+    s.insert("env.d", Node::dir());
+    s.insert("env.d/keep", Node::file(b"4"));
+    s.insert("env.launch.bak", Node::dir());
+    s.insert("env.launch.bak/A.override", Node::file(b"5"));
     s.insert("environment", Node::file(b"3"));
     s
 }
@@ -194,7 +199,7 @@ fn entry_alphabet(thorough: bool) -> Vec<AbsEnv> {
     } else {
         vec![b"A", b"B.c", b".h", b"\xff\xfe"]
     };
-    let values: Vec<&[u8]> = if thorough { vec![b"", b"v", b"l1\nl2\n", b"\x00\xff"] } else { vec![b"", b"l1\nl2\n\x00\xff"] };
+    let values: Vec<&[u8]> = if thorough { vec![b"", b"v", b"l1\nl2\n", b"\x00\xff", b"\n"] } else { vec![b"", b"\x00\xffl1\nl2\n"] };
     let mut v = vec![AbsEnv::new()];
     for s in &scopes {
         for b in BEHS {
